@@ -3,7 +3,7 @@
 import ast
 import copy
 
-__all__ = ['reaching_value', 'chain', 'is_chain', 'src', 'walk', 'stmts', 'Env', 'call_name', 'const',
+__all__ = ['skeleton', 'parse_expr', 'reaching_value', 'chain', 'is_chain', 'src', 'walk', 'stmts', 'Env', 'call_name', 'const',
            'names_loaded', 'names_stored', 'is_none_test', 'strip_not', 'flatten_bool',
            'norm', 'same', 'kwarg', 'contains_name', 'iter_child_stmts', 'assigned_names',
            'targets_of']
@@ -304,3 +304,49 @@ def reaching_value(func, name, lineno):
             if isinstance(s, (ast.AugAssign, ast.For)) and name in targets_of(s):
                 best = None
     return best.value if best is not None else None
+
+
+def parse_expr(text):
+    """Parse expected-code text into an expression (or statement) node; None if it is prose."""
+    try:
+        tree = ast.parse(text.strip())
+    except SyntaxError:
+        return None
+    if len(tree.body) != 1:
+        return None
+    stmt = tree.body[0]
+    return stmt.value if isinstance(stmt, ast.Expr) else stmt
+
+
+def skeleton(node):
+    """Shape of a construct with its leaves blanked: identifiers, attribute names, constants, operator kinds and keyword
+    names are *slots*; two constructs with the same skeleton differ only in slot values."""
+    if isinstance(node, list):
+        return '[' + ','.join(skeleton(n) for n in node) + ']'
+    if node is None:
+        return 'None'
+    if isinstance(node, (ast.operator, ast.cmpop, ast.boolop, ast.unaryop)):
+        return 'op'
+    if isinstance(node, ast.Name):
+        return 'id'
+    if isinstance(node, ast.Constant):
+        return 'const'
+    if isinstance(node, ast.Attribute):
+        return f'attr({skeleton(node.value)})'
+    if isinstance(node, ast.keyword):
+        return f'kw({skeleton(node.value)})'
+    if isinstance(node, (ast.expr_context,)):
+        return ''
+    parts = []
+    for field, value in ast.iter_fields(node):
+        if field in ('ctx', 'lineno', 'col_offset', 'end_lineno', 'end_col_offset', 'type_comment', 'kind'):
+            continue
+        if isinstance(value, list):
+            parts.append('[' + ','.join(skeleton(v) if isinstance(v, ast.AST) else 'x' for v in value) + ']')
+        elif isinstance(value, ast.AST):
+            parts.append(skeleton(value))
+        elif value is None:
+            parts.append('-')
+        else:
+            parts.append('v')
+    return f'{type(node).__name__}({",".join(parts)})'
